@@ -108,6 +108,13 @@ class Prefix:
         self.arr, self.stop = arr, stop
 
 
+class Mask:
+    """Boolean array `arr <cmp> scalar` (immutable): body(i) is its value at index i."""
+
+    def __init__(self, body, shape):
+        self.body, self.shape = body, tuple(shape)
+
+
 class Opaque:
     def __init__(self, tag, **kw):
         self.tag = tag
@@ -277,6 +284,10 @@ class RV:
         return self.t >= RV._u(o)
 
 
+def _is_inf(v):
+    return isinstance(v, float) and v in (float("inf"), float("-inf"))
+
+
 def _is_num(v):
     return isinstance(v, (int, float)) and not isinstance(v, bool) or (z3.is_expr(v) and v.sort() in (INT, REAL))
 
@@ -379,8 +390,20 @@ class FnSpec:
 class Env:
     """Read access to the variables of a state (arrays through the heap of that state)."""
 
-    def __init__(self, vars, heap, ghost=None):
-        self._vars, self._heap, self.ghost = vars, heap, ghost or {}
+    def __init__(self, vars, heap, ghost=None, loops=None):
+        self._vars, self._heap, self.ghost, self._loops = vars, heap, ghost or {}, loops if loops is not None else {}
+
+    # invariants name the code's locals by *role*, not by identifier, so that renaming a local does not disturb them
+    def loopvar(self, ordinal):
+        """Current value of the loop variable of loop `ordinal` (an enclosing loop)."""
+        return self._vars[self._loops[ordinal]["var"]]
+
+    def stored(self, ordinal):
+        """The array the body of loop `ordinal` stores into (when there is exactly one)."""
+        names = self._loops[ordinal]["arrays"]
+        if len(names) != 1:
+            raise Unsupported(f"loop {ordinal} stores into {names}, not into exactly one array")
+        return self._vars[names[0]]
 
     def __getitem__(self, name):
         return self._vars[name]
@@ -410,6 +433,7 @@ class _Exec:
         self.notes = []
         self.entry: State | None = None
         self.ghost = {}
+        self.loops = {}
 
     # ---- obligations
     def oblige(self, name, st: State, goal, where=""):
@@ -472,17 +496,47 @@ class _Exec:
             i = z3.Int("i!ew")
             st.pc.append(z3.ForAll([i], out.sel(st.heap, i) == _arith(node.op, a.sel(st.heap, i), b.sel(st.heap, i)), patterns=[out.sel(st.heap, i)]))
             return out
+        if isinstance(a, (Arr, View)) != isinstance(b, (Arr, View)):
+            arr, sc, arr_left = (a, b, True) if isinstance(a, (Arr, View)) else (b, a, False)
+            if arr.ndim != 1 or not _is_num(sc) or _is_inf(sc) or not isinstance(node.op, (ast.Add, ast.Sub, ast.Mult, ast.Div)):
+                raise Unsupported("array/scalar arithmetic other than + - * / on a 1-d array and a finite scalar")
+            out = st.new_array(arr.shape, "elementwise")
+            i = z3.Int("i!ew")
+            x = arr.sel(st.heap, i)
+            st.pc.append(z3.ForAll([i], out.sel(st.heap, i) == (_arith(node.op, x, sc) if arr_left else _arith(node.op, sc, x)), patterns=[out.sel(st.heap, i)]))
+            return out
         if all(isinstance(x, (int, float)) and not isinstance(x, bool) for x in (a, b)) and not isinstance(node.op, ast.Div):
             return {ast.Add: a + b, ast.Sub: a - b, ast.Mult: a * b}.get(type(node.op)) if type(node.op) in (ast.Add, ast.Sub, ast.Mult) else _arith(node.op, a, b)
         return _arith(node.op, a, b)
 
     def e_BoolOp(self, node, st):
-        vals = [self.eval(v, st) for v in node.values]
-        if all(isinstance(v, bool) for v in vals):
-            return all(vals) if isinstance(node.op, ast.And) else any(vals)
-        # Python's and/or on Booleans (all operands here are bool-valued: checked by _bool)
-        bs = [_bool(v) for v in vals]
-        return z3.And(*bs) if isinstance(node.op, ast.And) else z3.Or(*bs)
+        # short-circuit evaluation: operand k is evaluated under "all earlier operands true" (and) / "false" (or);
+        # obligations raised while evaluating it carry that guard, facts assumed by contracts are guarded too
+        is_and = isinstance(node.op, ast.And)
+        guards, results = [], []
+        for vn in node.values:
+            work = st.copy()
+            work.pc += guards
+            n0 = len(work.pc)
+            v = self.eval(vn, work)
+            for c in work.pc[n0:]:
+                st.pc.append(z3.Implies(z3.And(*guards), c) if guards else c)
+            for loc, term in work.heap.items():
+                st.heap.setdefault(loc, term)
+            if isinstance(v, bool):
+                if v != is_and:
+                    results.append(v)
+                    break  # decides the result; later operands are not evaluated
+                continue
+            bv = _bool(v)
+            results.append(bv)
+            guards.append(bv if is_and else z3.Not(bv))
+        if not results:
+            return is_and
+        if all(isinstance(r, bool) for r in results):
+            return all(results) if is_and else any(results)
+        rs = [_bool(r) for r in results]
+        return rs[0] if len(rs) == 1 else (z3.And(*rs) if is_and else z3.Or(*rs))
 
     def e_Compare(self, node, st):
         left = self.eval(node.left, st)
@@ -496,17 +550,48 @@ class _Exec:
                     left = right
                     continue
                 raise Unsupported("`is` on non-None operands")
+            if isinstance(left, str) and isinstance(right, str) and isinstance(op, (ast.Eq, ast.NotEq)):
+                conj.append(z3.BoolVal((left == right) == isinstance(op, ast.Eq)))
+                left = right
+                continue
+            if isinstance(left, (Arr, View)) and _is_num(right) and not _is_inf(right) and left.ndim == 1 and len(node.ops) == 1:
+                term, sc, cmp = st.heap[left.loc] if isinstance(left, Arr) else None, _real(right), type(op)
+                if term is None:
+                    raise Unsupported("mask of a view")
+                f = {ast.Lt: lambda a, b: a < b, ast.LtE: lambda a, b: a <= b, ast.Gt: lambda a, b: a > b, ast.GtE: lambda a, b: a >= b}.get(cmp)
+                if f is None:
+                    raise Unsupported("array comparison other than < <= > >=")
+                return Mask(lambda i, term=term, sc=sc, f=f: f(z3.Select(term, i), sc), left.shape)
             if not (_is_num(left) and _is_num(right)):
                 raise Unsupported(f"comparison of {left!r} and {right!r}")
+            if _is_inf(left) or _is_inf(right):
+                # extended reals: an infinite bound is a Python float; a symbolic real is finite
+                lv = left if isinstance(left, (int, float)) else 0.0
+                rv = right if isinstance(right, (int, float)) else 0.0
+                if not (_is_inf(left) or isinstance(left, (int, float))) and not _is_inf(right):
+                    raise Unsupported("comparison with infinity")
+                import operator as _op
+
+                f = {ast.Lt: _op.lt, ast.LtE: _op.le, ast.Gt: _op.gt, ast.GtE: _op.ge, ast.Eq: _op.eq, ast.NotEq: _op.ne}[type(op)]
+                conj.append(z3.BoolVal(bool(f(lv, rv))))
+                left = right
+                continue
             ints = all(isinstance(x, int) or (z3.is_expr(x) and x.sort() == INT) for x in (left, right))
             x, y = (_int(left), _int(right)) if ints else (_real(left), _real(right))
             conj.append({ast.Lt: x < y, ast.LtE: x <= y, ast.Gt: x > y, ast.GtE: x >= y, ast.Eq: x == y, ast.NotEq: x != y}[type(op)])
             left = right
+        if all(z3.is_true(c) or z3.is_false(c) for c in conj):
+            return all(z3.is_true(c) for c in conj)
         return conj[0] if len(conj) == 1 else z3.And(*conj)
 
     def e_IfExp(self, node, st):
-        c = _bool(self.eval(node.test, st))
+        c = self.eval(node.test, st)
+        if isinstance(c, bool):
+            return self.eval(node.body if c else node.orelse, st)  # lazily, as Python does
+        c = _bool(c)
         a, b = self.eval(node.body, st), self.eval(node.orelse, st)
+        if all(isinstance(x, int) or (z3.is_expr(x) and x.sort() == INT) for x in (a, b)):
+            return z3.If(c, _int(a), _int(b))
         return z3.If(c, _real(a), _real(b))
 
     def e_Attribute(self, node, st):
@@ -537,6 +622,8 @@ class _Exec:
                     return Prefix(v, _int(self.eval(sl.upper, st)))
                 raise Unsupported("general slice")
             idx = self.eval(sl, st)
+            if isinstance(idx, Mask):
+                return self.filter(st, v, idx, node)
             idx = idx if isinstance(idx, tuple) else (idx,)
             if len(idx) == v.ndim:
                 self.bounds(st, v, idx, node)
@@ -546,6 +633,39 @@ class _Exec:
                 return View(v.base(), tuple(getattr(v, "prefix", ())) + tuple(_int(i) for i in idx)) if isinstance(v, View) else View(v, tuple(_int(i) for i in idx))
         raise Unsupported(f"subscript of {v!r}")
 
+    def filter(self, st, v, mask, node):
+        """numpy Boolean-mask indexing `a[mask]`: the subsequence of the entries where the mask holds.
+        Contract over ghost functions pos (filtered index -> original index, strictly increasing, onto the
+        positions where the mask holds) and its inverse; the same mask gives the same positions."""
+        if v.ndim != 1:
+            raise Unsupported("mask indexing of an array that is not 1-d")
+        n = v.shape[0]
+        self.oblige(f"mask_has_the_length_of_the_array@line{node.lineno}", st, _int(mask.shape[0]) == _int(n))
+        key = mask.body(z3.Int("i!mask"))
+        cache = self.__dict__.setdefault("_masks", {})
+        hit = next((val for (kterm, val) in cache.values() if kterm.eq(key)), None)
+        if hit is None:
+            k = fresh("nkept", INT)
+            tag = next(_counter)
+            pos = z3.Function(f"pos!{tag}", INT, INT)
+            inv = z3.Function(f"posinv!{tag}", INT, INT)
+            j, j2, i = z3.Int("j!f"), z3.Int("j2!f"), z3.Int("i!f")
+            st.pc += [
+                k >= 0,
+                k <= _int(n),
+                z3.ForAll([j], z3.Implies(z3.And(j >= 0, j < k), z3.And(pos(j) >= 0, pos(j) < _int(n), mask.body(pos(j)))), patterns=[pos(j)]),
+                z3.ForAll([j, j2], z3.Implies(z3.And(0 <= j, j < j2, j2 < k), pos(j) < pos(j2)), patterns=[z3.MultiPattern(pos(j), pos(j2))]),
+                z3.ForAll([i], z3.Implies(z3.And(i >= 0, i < _int(n), mask.body(i)), z3.And(inv(i) >= 0, inv(i) < k, pos(inv(i)) == i)), patterns=[inv(i)]),
+            ]
+            hit = (k, pos, inv)
+            cache[key.get_id()] = (key, hit)
+        k, pos, inv = hit
+        out = st.new_array((k,), "filtered")
+        j = z3.Int("j!f")
+        st.pc.append(z3.ForAll([j], z3.Implies(z3.And(j >= 0, j < k), out.sel(st.heap, j) == v.sel(st.heap, pos(j))), patterns=[out.sel(st.heap, j)]))
+        out.filtered = (v, st.heap[v.loc], pos, inv, mask)
+        return out
+
     def bounds(self, st, v, idx, node):
         """Index-in-bounds obligation (no negative / wrap-around indexing is relied upon)."""
         conds = [z3.And(_int(i) >= 0, _int(i) < _int(s)) for i, s in zip(idx, v.shape)]
@@ -554,6 +674,19 @@ class _Exec:
     def e_Call(self, node, st):
         d = self.dotted(node.func)
         f = self.spec.externals.get(d) if d is not None else None
+        if f is None and isinstance(node.func, ast.Attribute) and not (d and d.split(".")[0] in self.spec.externals):
+            recv = None
+            try:
+                recv = self.eval(node.func.value, st)
+            except Unsupported:
+                recv = None
+            if isinstance(recv, (Arr, View)):
+                m = self.spec.externals.get(f"ndarray.{node.func.attr}")
+                if m is None:
+                    raise Unsupported(f"method .{node.func.attr}() of an array (no contract given)")
+                args = [self.eval(a, st) for a in node.args]
+                kwargs = {k.arg: self.eval(k.value, st) for k in node.keywords}
+                return m(self, st, [recv] + args, kwargs, node)
         if f is None:
             raise Unsupported(f"call of {ast.unparse(node.func)} (no contract given)")
         args = [self.eval(a, st) for a in node.args]
@@ -650,18 +783,22 @@ class _Exec:
         n = _int(self.eval(it.args[0], st))
         ivar = node.target.id
         mod_names, mod_arrays = _modified(node.body)
+        self.loops[ordinal] = {"var": ivar, "arrays": sorted(mod_arrays)}
         tag = f"loop{ordinal}@line{node.lineno}"
-        entry_env = Env(self.entry.vars, self.entry.heap, self.ghost)
+        entry_env = Env(self.entry.vars, self.entry.heap, self.ghost, self.loops)
 
         def inv_at(state, i):
-            return z3.And(*[_bool(c) for c in inv(entry_env, Env(state.vars, state.heap, self.ghost), i)])
+            try:
+                return z3.And(*[_bool(c) for c in inv(entry_env, Env(state.vars, state.heap, self.ghost, self.loops), i)])
+            except KeyError as e:
+                raise Unsupported(f"invariant of loop {ordinal} refers to {e}, which is not defined at this point") from None
 
         # (1) holds on entry
         self.oblige(f"{tag}.invariant_holds_on_entry", st, inv_at(st, z3.IntVal(0)))
 
         def havoc(state):
             h = state.copy()
-            for name in mod_names:
+            for name in sorted(mod_names):
                 if name in h.vars and z3.is_expr(h.vars[name]):
                     h.vars[name] = fresh(name, h.vars[name].sort())
                 elif name in h.vars and not isinstance(h.vars[name], (Arr, View)):
@@ -676,7 +813,7 @@ class _Exec:
                     else:
                         raise Unsupported(f"loop reassigns {name!r} of unsupported kind")
                 # names first bound inside the body are not live at the loop head
-            for aname in mod_arrays:
+            for aname in sorted(mod_arrays):
                 a = h.vars.get(aname)
                 if not isinstance(a, (Arr, View)):
                     raise Unsupported(f"loop stores into {aname!r}, which is not an array here")
@@ -739,7 +876,7 @@ def _modified(body):
 # ----------------------------------------------------------------------------- proving a function against its contract
 def make_params(spec: FnSpec, st: State):
     for name, kind in spec.params:
-        if kind.startswith("arr"):
+        if isinstance(kind, str) and kind.startswith("arr"):
             nd = int(kind[3:])
             shape = [fresh(f"{name}_n{k}", INT) for k in range(nd)]
             st.vars[name] = st.new_array(shape, prefix=name)
@@ -749,6 +886,8 @@ def make_params(spec: FnSpec, st: State):
             st.vars[name] = fresh(name, REAL)
         elif kind == "bool":
             st.vars[name] = fresh(name, BOOL)
+        elif callable(kind):
+            st.vars[name] = kind(st)  # value built by the contract (e.g. a tuple of extended reals, case by case)
         else:
             raise Unsupported(f"parameter kind {kind}")
 
@@ -788,7 +927,7 @@ def prove(spec: FnSpec, timeout_s=10.0, budget_s=120.0):
             ex.oblige(f"post.{name}", end, goal)
         # frame: array parameters outside `modifies` are unchanged
         for pname, kind in spec.params:
-            if kind.startswith("arr") and pname not in spec.modifies:
+            if isinstance(kind, str) and kind.startswith("arr") and pname not in spec.modifies:
                 a = ex.entry.vars[pname]
                 ex.oblige(f"frame.{pname}_unchanged", end, end.heap[a.loc] == ex.entry.heap[a.loc])
     t0 = time.time()
@@ -803,31 +942,40 @@ def prove(spec: FnSpec, timeout_s=10.0, budget_s=120.0):
 
 
 def discharge(ob: Obligation, timeout_s=10.0, use_cvc5=True):
+    """z3 with restarts: quantifier instantiation is heavy-tailed (the same query takes 20 ms or times out depending
+    on the seed), so several short attempts with different seeds come before one long one; `unsat` / `sat` of any
+    attempt is final, only all-`unknown` is undecided."""
     t0 = time.time()
     goal = skolemize(ob.goal)
-    s = z3.Solver()
-    s.set("timeout", int(timeout_s * 1000))
-    s.add(*ob.hyps)
-    s.add(z3.Not(goal))
-    r = s.check()
     ob.backend = "z3-wp"
-    if r == z3.unsat:
-        ob.status = "proved"
-    elif r == z3.sat:
-        ob.status, ob.model = "refuted", s.model()
+    attempts = [(0, min(2.0, timeout_s)), (1, min(2.0, timeout_s)), (2, min(3.0, timeout_s)), (3, min(5.0, timeout_s)), (4, timeout_s)]
+    reason = ""
+    s = None
+    for seed, tmo in attempts:
+        s = z3.Solver()
+        s.set("timeout", int(tmo * 1000))
+        s.set("random_seed", seed)
+        s.add(*ob.hyps)
+        s.add(z3.Not(goal))
+        r = s.check()
+        if r == z3.unsat:
+            ob.status = "proved"
+            break
+        if r == z3.sat:
+            ob.status, ob.model = "refuted", s.model()
+            break
+        reason = f"z3: {s.reason_unknown()} ({len(attempts)} seeds)"
     else:
-        ob.status, ob.reason = "unknown", f"z3: {s.reason_unknown()}"
-        if not use_cvc5:
-            ob.time_s = time.time() - t0
-            return ob
-        try:
-            rc, _err = run_cvc5(s.to_smt2(), timeout_s)
-        except Exception as e:  # cvc5 not usable on this query
-            rc = f"error {e}"
-        if rc == "unsat":
-            ob.status, ob.backend, ob.reason = "proved", "cvc5-wp", ""
-        else:
-            ob.reason += f"; cvc5: {rc}"
+        ob.status, ob.reason = "unknown", reason
+        if use_cvc5:
+            try:
+                rc, _err = run_cvc5(s.to_smt2(), timeout_s)
+            except Exception as e:  # cvc5 not usable on this query
+                rc = f"error {e}"
+            if rc == "unsat":
+                ob.status, ob.backend, ob.reason = "proved", "cvc5-wp", ""
+            else:
+                ob.reason += f"; cvc5: {rc}"
     ob.time_s = time.time() - t0
     return ob
 
